@@ -127,6 +127,53 @@ Definition agg_link_flag (g : zstate) (weighted : bool) (gamma : Q) (perms : lis
   | _ => false
   end.
 
+(* per-case evaluation of the bookkeeping invariants L1-L3 of DESIGN Appendix B at the end of
+   the first local-moving phase, in the form the move-gain theorems use them:
+   L1 node2com u = c  <->  u in inner_partition[c];  L2 _partition[c] = inner_partition[c] (the
+   nodes' attribute sets are singletons at this level);  L3 Stot[c] = K_c (directed: Stot_in[c] =
+   Kin_c, Stot_out[c] = Kout_c) computed directly on the working graph's edge multiset *)
+Definition same_set (a b : list nat) : bool :=
+  forallb (fun x => mem Nat.eqb x b) a && forallb (fun x => mem Nat.eqb x a) b.
+
+Fixpoint zip_all {X Y} (f : X -> Y -> bool) (a : list X) (b : list Y) : bool :=
+  match a, b with
+  | [], [] => true
+  | x :: a', y :: b' => f x y && zip_all f a' b'
+  | _, _ => false
+  end.
+
+Definition bookkeeping_flag (g : zstate) (weighted : bool) (gamma : Q) (perms : list (list nat)) : bool :=
+  match convert_graph Z.eqb Z.ltb g weighted (node_map_of Z.ltb g) with
+  | Ok gu =>
+    match size_q gu weighted, wedges_of true (get_all_edges gu) with
+    | Ok m, Some es =>
+      match compute_one_level_state SWEEP_FUEL gu m (map_node_names_to_hashsets gu) gamma perms with
+      | Ok s =>
+        let inner := ls_inner s in
+        (* L1 *)
+        forallb (fun uc => match nth_error inner (snd uc) with
+                           | Some p => mem Nat.eqb (fst uc) p
+                           | None => false
+                           end) (ls_node2com s) &&
+        forallb (fun ip => forallb (fun u => match lookup Nat.eqb u (ls_node2com s) with
+                                             | Some c => Nat.eqb c (snd ip)
+                                             | None => false
+                                             end) (fst ip))
+                (enumerate_from 0 inner) &&
+        (* L2 *)
+        zip_all same_set (ls_partition s) inner &&
+        (* L3 *)
+        (if directed (sp gu)
+         then zip_all (fun st c => Qeq_bool st (Kin_of Nat.eqb es c)) (stot_in (ls_deg s)) inner &&
+              zip_all (fun st c => Qeq_bool st (Kout_of Nat.eqb es c)) (stot_out (ls_deg s)) inner
+         else zip_all (fun st c => Qeq_bool st (K_of Nat.eqb es c)) (stot (ls_deg s)) inner)
+      | _ => false
+      end
+    | _, _ => true
+    end
+  | _ => false
+  end.
+
 Definition run_louv (g : zstate) (weighted : bool) (gamma thr : Q) (seeded : bool) (perms : list (list nat))
   : list obs :=
   let r := louvain_partitions_t Z.eqb Z.ltb LEVEL_FUEL SWEEP_FUEL g weighted gamma thr perms in
@@ -140,7 +187,8 @@ Definition run_louv (g : zstate) (weighted : bool) (gamma thr : Q) (seeded : boo
      [level_mod_obs g weighted gamma levels;
       (74, [[if check_levels Z.eqb (names_of g) levels then 1 else 0]], []);
       (75, [[if monotone_flag g weighted gamma levels then 1 else 0]], []);
-      (76, [[if agg_link_flag g weighted gamma perms then 1 else 0]], [])]
+      (76, [[if agg_link_flag g weighted gamma perms then 1 else 0]], []);
+      (77, [[if bookkeeping_flag g weighted gamma perms then 1 else 0]], [])]
    | _ => []
    end) ++
   code_obs rc ::
